@@ -21,7 +21,8 @@ LEVEL_TEXT = ("Every return value of the twelve decomposition functions observed
 LEVEL_NOTE = "Trusted: icontract wrapping, python-list oracles. Weighted PDAGs with undirected edges are outside the stated quantifier."
 RULE = ("cases: a graph on which all twelve functions are called (S ranging over all subsets for p<=4, 6 random subsets beyond); "
         "'internal' cases drive higher-level routines with the contracts armed.  distinct = distinct (family, graph, weights); "
-        "non-trivial = has both a directed and an undirected edge, or a collider, or a negative / non-unit weight")
+        "non-trivial = has both a directed and an undirected edge, or a collider, or a negative / non-unit weight"
+        ' Also: relabelled embeddings, named shapes, array presentations, graphs up to 14 nodes, minute and cancelling weights.')
 ASSUMPTIONS = ["inputs outside the quantifier (weighted two-cycles, non-zero diagonal, cyclic directed part) are counted out_of_domain"]
 EXHAUSTIVE = {"quick": True, "thorough": True}
 SOFT_LIMIT = {"quick": 240, "thorough": 1700}
